@@ -212,6 +212,9 @@ type World struct {
 	Auto     []AutoLine   `json:"auto,omitempty"`
 	// Decoy entities in shared files (other fields / soils) to exercise file scanning.
 	Decoys   int          `json:"decoys,omitempty"`
+	// BadEnt adds entities that make a batch line fail with a reported run error
+	// when selected by plotNr / soilId / fcode (C11).
+	BadEnt   bool         `json:"badent,omitempty"`
 	CRLF     bool         `json:"crlf,omitempty"`
 }
 
